@@ -29,11 +29,17 @@ import (
 var clusterNames = []string{"alpha", "beta", "gamma", "delta.example.com", "x.io", "edge"}
 
 // alias pool as written into objects (mixed case on purpose); includes names of clusters
-var aliasPool = []string{"x.io", "Y.io", "shared.Example.COM", "api.k8s.local", "tenant-1", "edge", "alpha", "beta", "gamma"}
+// longName: a 240+ character DNS name made of 63-character labels; idnName: an internationalised name in its wire form
+var (
+	longName = strings.Repeat(strings.Repeat("l", 63)+".", 3) + "long-name.example"
+	idnName  = "xn--bcher-kva.Example"
+)
+
+var aliasPool = []string{"x.io", "Y.io", "shared.Example.COM", "api.k8s.local", "tenant-1", "edge", "alpha", "beta", "gamma", longName, idnName}
 
 // base names of the probe universe: every name that can be claimed plus two that never are ("alph" is a prefix of a
 // cluster name, "ghost.io" is unrelated)
-var baseNames = []string{"alpha", "beta", "gamma", "delta.example.com", "x.io", "y.io", "shared.example.com", "api.k8s.local", "tenant-1", "edge", "alph", "ghost.io"}
+var baseNames = []string{"alpha", "beta", "gamma", "delta.example.com", "x.io", "y.io", "shared.example.com", "api.k8s.local", "tenant-1", "edge", "alph", "ghost.io", longName, strings.ToLower(idnName)}
 
 func mixCase(s string) string {
 	b := []byte(s)
@@ -58,6 +64,10 @@ func variantsOf(n string) []variant {
 		{mixCase(n), "case", true},
 		{n + ":6443", "port", false},
 		{strings.ToUpper(n) + ":443", "case+port", false},
+		// boundary ports: empty port ("host:" is a legal authority), 0 and 65535
+		{n + ":", "port", false},
+		{mixCase(n) + ":65535", "case+port", false},
+		{n + ":0", "port", false},
 	}
 }
 
@@ -97,25 +107,26 @@ func initMaterial() {
 // ---- world: one gateway living through one history ----
 
 type world struct {
-	r          *vkit.R
-	gw         *bed.Gateway
-	stubs      map[string]*bed.Stub
-	model      *Model
-	lister     map[string]*ObjSpec                       // what the lister holds
-	pend       map[string]*proxyv1alpha1.UpstreamCluster // delivered object that asked for a requeue (still the lister's version)
-	pendS      map[string]*ObjSpec
-	infos      map[string]*clusters.ClusterInfo // last ClusterInfo seen for a live cluster (to check its context after delete)
-	events     []Event
-	token      string
-	wrap       func(*tls.ClientHelloInfo) (*tls.Config, error)
-	baseC      *tls.Config
-	ln         net.Listener
-	failed     bool
-	idn        int
-	hist       int
-	traffic    bool
-	stableBase bool
-	queried    map[string]bool // host strings already used as SNI / Host before (GetConfigForClient, SNIVerifyOptions, handshake)
+	r           *vkit.R
+	gw          *bed.Gateway
+	stubs       map[string]*bed.Stub
+	model       *Model
+	lister      map[string]*ObjSpec                       // what the lister holds
+	pend        map[string]*proxyv1alpha1.UpstreamCluster // delivered object that asked for a requeue (still the lister's version)
+	pendS       map[string]*ObjSpec
+	infos       map[string]*clusters.ClusterInfo // last ClusterInfo seen for a live cluster (to check its context after delete)
+	events      []Event
+	token       string
+	wrap        func(*tls.ClientHelloInfo) (*tls.Config, error)
+	baseC       *tls.Config
+	ln          net.Listener
+	failed      bool
+	idn         int
+	hist        int
+	traffic     bool
+	stableBase  bool
+	everDeleted map[string]bool
+	queried     map[string]bool // host strings already used as SNI / Host before (GetConfigForClient, SNIVerifyOptions, handshake)
 
 	caCache map[*x509.CertPool][]string
 }
@@ -151,7 +162,7 @@ func buildObject(o *ObjSpec, endpoint string) *proxyv1alpha1.UpstreamCluster {
 
 func newWorld(r *vkit.R, traffic bool, hist int) *world {
 	w := &world{r: r, stubs: map[string]*bed.Stub{}, traffic: traffic, model: NewModel(), lister: map[string]*ObjSpec{}, pend: map[string]*proxyv1alpha1.UpstreamCluster{},
-		pendS: map[string]*ObjSpec{}, infos: map[string]*clusters.ClusterInfo{}, hist: hist, caCache: map[*x509.CertPool][]string{}, queried: map[string]bool{}}
+		pendS: map[string]*ObjSpec{}, infos: map[string]*clusters.ClusterInfo{}, hist: hist, caCache: map[*x509.CertPool][]string{}, queried: map[string]bool{}, everDeleted: map[string]bool{}}
 	w.gw = bed.NewGateway(bed.GatewayOptions{})
 	w.token = w.gw.Tokens.Add(&user.DefaultInfo{Name: "c10-user", Groups: []string{"system:authenticated"}})
 	pool := x509.NewCertPool()
@@ -248,7 +259,11 @@ func (w *world) step(ev Event, g *vkit.Rand, deep bool) {
 		o := w.gw.SetLister(obj)
 		w.lister[ev.Name] = ev.Obj
 		sr = w.gw.Deliver(o)
+		wasLive := w.model.Live(ev.Name)
 		refused = w.model.Apply(ev.Obj)
+		if !refused && !wasLive && w.everDeleted[ev.Name] {
+			r.Count("clusters_recreated_under_same_name", 1)
+		}
 		delete(w.pend, ev.Name)
 		delete(w.pendS, ev.Name)
 		if sr.Requeue {
@@ -271,6 +286,7 @@ func (w *world) step(ev Event, g *vkit.Rand, deep bool) {
 		delete(w.pend, ev.Name)
 		delete(w.pendS, ev.Name)
 		if w.model.Live(ev.Name) {
+			w.everDeleted[ev.Name] = true
 			deleted = ev.Name
 			r.Count("deletes_of_live_cluster", 1)
 		}
@@ -425,6 +441,30 @@ func (w *world) step(ev Event, g *vkit.Rand, deep bool) {
 			if !w.checkChain(vs[g.Intn(len(vs))], w.model.Owner[n]) {
 				return
 			}
+		}
+	}
+}
+
+// shutdownCheck: the manager is shut down (DeleteAll, what the gateway does when it stops): no name resolves any more and
+// the context of every cluster that was alive is cancelled.
+func (w *world) shutdownCheck() {
+	live := map[string]*clusters.ClusterInfo{}
+	for c, ci := range w.infos {
+		if w.model.Live(c) {
+			live[c] = ci
+		}
+	}
+	w.gw.Ctrl.DeleteAll()
+	w.r.Count("shutdown_checks", 1)
+	for c, ci := range live {
+		w.r.Count("shutdown_cluster_contexts_checked", 1)
+		if ci.Context().Err() == nil {
+			w.r.Violation("C10/shutdown/context-not-cancelled", fmt.Sprintf("after DeleteAll the context of cluster %q is still alive", c), w.witness(nil))
+		}
+	}
+	for _, n := range baseNames {
+		if got, _ := w.resolve(n); got != "" {
+			w.r.Violation("C10/shutdown/name-still-resolves", fmt.Sprintf("after DeleteAll host %q still resolves to %q", n, got), w.witness(nil))
 		}
 	}
 }
@@ -776,8 +816,28 @@ func (w *world) checkChain(v variant, owner string) bool {
 	}
 	w.idn++
 	id := fmt.Sprintf("c10-%d-%d", w.hist, w.idn)
-	rec := w.gw.Serve(bed.NewRequest("GET", v.Host, "/api/v1/namespaces/default/pods", w.token, id, nil))
+	req := bed.NewRequest("GET", v.Host, "/api/v1/namespaces/default/pods", w.token, id, nil)
+	if w.idn%3 == 0 {
+		// the request arrives on a TLS connection whose handshake named ANOTHER host (a client is free to do that): the
+		// request is still addressed to the host of its Host header
+		sni := baseNames[(w.idn/3)%len(baseNames)]
+		req.TLS = &tls.ConnectionState{ServerName: sni, HandshakeComplete: true, Version: tls.VersionTLS13}
+		if w.model.Owner[sni] != owner {
+			w.r.Count("chain_requests_whose_sni_names_another_cluster", 1)
+		}
+	}
+	rec := w.gw.Serve(req)
 	w.r.Count("chain_requests", 1)
+	if w.idn%5 == 0 {
+		// IP literals are never cluster names: such a request must not reach any cluster's upstream
+		ip := []string{"127.0.0.1:6443", "[::1]:443", "10.0.0.1", "[fe80::1]"}[(w.idn/5)%4]
+		rip := w.gw.Serve(bed.NewRequest("GET", ip, "/api/v1/namespaces/default/pods", w.token, id+"-ip", nil))
+		w.r.Count("chain_requests_with_ip_literal_host", 1)
+		if s := rip.Header().Get("X-Verif-Stub"); s != "" {
+			w.violate("C10/chain/ip-literal-host-served", fmt.Sprintf("request with Host %q was served by the upstream of cluster %q", ip, s), map[string]interface{}{"host": ip})
+			return false
+		}
+	}
 	served := rec.Header().Get("X-Verif-Stub")
 	x := map[string]interface{}{"host": v.Host, "owner": owner, "status": rec.Code, "answered_by_stub_of": served, "body": fmt.Sprintf("%.120s", rec.Body.String())}
 	switch {
@@ -1117,7 +1177,7 @@ func TestCheck(t *testing.T) {
 			"so that the list keeps its length, followed by another cluster claiming the dropped name, in-place rotation of a live cluster's serving key pair / client CA / both (changed, removed, added; names unchanged) " +
 			"with the cluster's hosts used as SNI (GetConfigForClient and, in traffic histories, a real handshake) immediately before and after the update. The base GetConfigForClientFunc " +
 			"returns one long-lived *tls.Config in 2 of 3 histories and a fresh clone in the others. The real UpstreamClusterController processes every event (VerifSync over a scripted lister). " +
-			"After EVERY event: all 12 base names x 5 case/port variants are resolved through the production path and compared with a first-claimant ownership model " +
+			"After EVERY event: all 14 base names (incl. a 240-character name of 63-character labels and an IDN name in wire form) x 8 case/port variants (ports 443, 6443, 0, 65535 and the empty port) are resolved through the production path and compared with a first-claimant ownership model " +
 			"(I1 resolution, I2 frame, I3 delete), the TLS config from WrapGetConfigForClient and SNIVerifyOptions are compared with the owner's certificate / client CA " +
 			"(behaviourally: which client certificates verify) (I4); on a sample of events real requests go through the handler chain to per-cluster stub upstreams (I5) " +
 			"and real TLS handshakes are made against a listener using the wrapped GetConfigForClient (I6). Concurrent part (names-under-update): 2 000 updates (thorough 20 000) that change one cluster's server-name list (6 volatile aliases in random subsets, order and case shuffled) " +
@@ -1149,6 +1209,9 @@ func TestCheck(t *testing.T) {
 				r.Inconclusive(fmt.Sprintf("harness panic in history %d: %v", i, p))
 				return
 			}
+			if !w.failed {
+				w.shutdownCheck()
+			}
 			r.Eval(1)
 			b, _ := json.Marshal(w.events)
 			if len(x.classes) > 0 {
@@ -1172,6 +1235,9 @@ func TestCheck(t *testing.T) {
 		r.Require(r.Counter("deletes_of_live_cluster") >= int64(nh/4), "too few deletes of live clusters")
 		r.Require(r.Counter("chain_served") >= int64(nh/10) && r.Counter("chain_unresolved") >= int64(nh/30), "too few requests through the handler chain")
 		r.Require(r.Counter("handshakes_checked") >= int64(nh/3), "too few TLS handshakes")
+		r.Require(r.Counter("chain_requests_whose_sni_names_another_cluster") >= int64(nh/10) && r.Counter("chain_requests_with_ip_literal_host") >= int64(nh/10), "too few chain requests with a foreign SNI / an IP literal host")
+		r.Require(r.Counter("clusters_recreated_under_same_name") >= int64(nh/4), "too few clusters deleted and created again under the same name")
+		r.Require(r.Counter("shutdown_cluster_contexts_checked") >= int64(nh), "too few shutdown checks")
 		r.Require(r.Counter("rotations") >= int64(nh/2) && r.Counter("rotation_hosts_used_before_and_after") >= int64(nh) && r.Counter("rotation_handshakes_after") >= int64(nh/4),
 			"too few in-place rotations of TLS material with hosts used before and after")
 		for _, c := range []string{"replaced-by-duplicate", "rotation", "collision", "move-release-first", "move-claim-first", "rename", "case-change", "delete", "redeliver"} {
